@@ -34,6 +34,9 @@ def hosts(tier: str) -> t.Dict[str, dict]:
     # the reader sleeps between attempts; its attempts must still all get the same arguments
     h['outside-reader'] = {'nodes': {'I': P(('x', 'plain')), 'S': P(('p', 'in', 'I')), 'D': P(('p', 'in', 'S')), 'R': P(('p', 'in', 'S')),
                                      'O': P(('r', 'in', 'R'), ('d', 'rec', {'start': 'S', 'dest': 'D', 'max': 1}))}, 'input': 'I', 'output': 'O'}
+    # the retrying node's class derives from another node class of the pipeline that has different retry settings and runs first
+    h['inherits'] = {'nodes': {'I': P(('x', 'plain')), 'B': dict(P(('p', 'in', 'I')), attempts=2, delay=0.3, exceptions=['E2']),
+                               'R': dict(P(('p', 'in', 'B')), extends='B'), 'O': P(('r', 'in', 'R'))}, 'input': 'I', 'output': 'O'}
     if tier != 'quick':
         h['output'] = {'nodes': {'I': P(('x', 'plain')), 'R': P(('p', 'in', 'I'))}, 'input': 'I', 'output': 'R'}
         h['two-retrying'] = {'nodes': {'I': P(('x', 'plain')), 'R': P(('p', 'in', 'I')),
